@@ -17,7 +17,11 @@ func Shrink(p *Prop, idx int, tape []uint32, class string, kf *KnownFindings, bu
 	tries := 0
 	fails := func(c []uint32) bool {
 		tries++
-		res := ExecuteRetry(p, idx, c, kf, false)
+		att := p.Attempts
+		if att > 2 {
+			att = 2 // candidates that do not fail cost every attempt: keep minimisation affordable
+		}
+		res := executeRetryN(p, idx, c, kf, false, att)
 		return res.Abort == "" && len(res.Run.Viol) > 0 && res.Run.Viol[0].Class == class
 	}
 	cur := append([]uint32(nil), tape...)
